@@ -51,6 +51,41 @@ func scnClientTx(o *Out, r *Rng, thorough bool) {
 			ins = append(ins, "m 1 1 1 s - "+name+" 0 "+hxi(q)+" 0")
 		}
 	}
+	// "exactly one request frame" whatever comes back: valid replies, replies with
+	// a wrong CRC, exceptions, replies from another unit, stale / foreign MBAP frames
+	nr := 400
+	if thorough {
+		nr = 8000
+	}
+	for i := 0; i < nr; i++ {
+		unit, e, w := randCfg(r)
+		fr := "m"
+		if i%2 == 0 {
+			fr = "r"
+		}
+		op := randOp(r, opValid)
+		fc, payload, ok := buildReply(r, op, e)
+		if !ok {
+			continue
+		}
+		p := reply{txn: 1, proto: 0, length: -1, unit: byte(unit), fc: fc, payload: payload}
+		kind := r.Intn(5)
+		switch kind {
+		case 1:
+			p.badCRC = 1 + r.Intn(3)
+			p.txn = uint16(2 + r.Intn(60000))
+		case 2:
+			p.fc |= 0x80
+			p.payload = []byte{byte(1 + r.Intn(11))}
+		case 3:
+			p.unit ^= byte(1 + r.Intn(254))
+		case 4:
+			p.proto = uint16(1 + r.Intn(65535))
+		}
+		end := []string{"s", "c", "r"}[r.Intn(3)]
+		ins = append(ins, clientCase(fr, unit, e, w, end, [][]byte{p.bytes(fr, r)}, op))
+		o.Stat("peer:" + []string{"valid", "badcrc-or-stale", "exception", "other-unit", "foreign-proto"}[kind])
+	}
 	outs := o.RunMany("cc", ins)
 	for _, out := range outs {
 		if strings.HasPrefix(out, "err:params") {
